@@ -18,6 +18,9 @@
 #include <sys/resource.h>
 #include <unistd.h>
 
+#include <sys/stat.h>
+#include <unistd.h>
+
 #include "scenario.h"
 
 using scen::Json;
@@ -29,6 +32,23 @@ std::vector<Scenario*>& registry()
 {
     static std::vector<Scenario*> r;
     return r;
+}
+
+std::string scratch_root()
+{
+    static std::string root;
+    if (root.empty()) {
+        char buf[4096];
+        ssize_t n = readlink("/proc/self/exe", buf, sizeof buf - 1);
+        std::string exe = n > 0 ? std::string(buf, static_cast<size_t>(n)) : std::string("/verif/build/plain/pistache_sim");
+        for (int i = 0; i < 2; ++i) {
+            size_t sl = exe.rfind('/');
+            if (sl != std::string::npos) exe.resize(sl);
+        }
+        root = exe + "/scratch";
+        mkdir(root.c_str(), 0755);
+    }
+    return root;
 }
 
 void gen_sched(sim::Rng& rng, Json& plan, sim::u64 horizon, bool allow_stalls)
